@@ -138,17 +138,38 @@ class ProbeGen:
             dt = "decltype(std::declval<%s>().%s())" % (type_expr, d.name)
             self.lib_rows("probe_data", DATA_OPS, dt, byte, path + "." + d.name)
 
+    def comp_conversions(self, comp, mexpr, cexpr, path):
+        """views nested inside a composite view: composite and array elements, recursively"""
+        for e, off in self.m.composite_layout(comp)[0]:
+            tgt = self.m.deref(e)
+            if off is None or not (tgt.kind == "composite" or (tgt.kind == "type" and tgt.is_array())):
+                continue
+            em = "decltype(std::declval<%s>().%s())" % (mexpr, e.name)
+            ec = "decltype(std::declval<%s>().%s())" % (cexpr, e.name)
+            self.conv.append('    vro::probe_conv<%s, %s>("%s.%s");' % (em, ec, path, e.name))
+            if tgt.kind == "composite":
+                self.comp_conversions(tgt, em, ec, path + "." + e.name)
+
     def conversions(self, lv, mexpr, cexpr, path):
         self.conv.append('    vro::probe_conv<%s, %s>("%s");' % (mexpr, cexpr, path))
+        if path.count(".") == 0 and "[]" not in path:
+            # the message header view
+            self.conv.append('    vro::probe_conv<decltype(sbepp::get_header(std::declval<%s>())), decltype(sbepp::get_header(std::declval<%s>()))>("%s.#header");'
+                             % (mexpr, cexpr, path))
         for f, off in self.m.level_layout(lv)[0]:
             enc = self.m.field_enc(f)
             if off is not None and enc is not None and (enc.kind == "composite" or (enc.kind == "type" and enc.is_array())):
                 self.conv.append('    vro::probe_conv<decltype(std::declval<%s>().%s()), decltype(std::declval<%s>().%s())>("%s.%s");' % (
                     mexpr, f.name, cexpr, f.name, path, f.name))
+                if enc.kind == "composite":
+                    self.comp_conversions(enc, "decltype(std::declval<%s>().%s())" % (mexpr, f.name),
+                                          "decltype(std::declval<%s>().%s())" % (cexpr, f.name), path + "." + f.name)
         for g in lv.groups:
             gm = "decltype(std::declval<%s>().%s())" % (mexpr, g.name)
             gc = "decltype(std::declval<%s>().%s())" % (cexpr, g.name)
             self.conv.append('    vro::probe_conv<%s, %s>("%s.%s");' % (gm, gc, path, g.name))
+            self.conv.append('    vro::probe_conv<decltype(sbepp::get_header(std::declval<%s>())), decltype(sbepp::get_header(std::declval<%s>()))>("%s.%s.#dimension");'
+                             % (gm, gc, path, g.name))
             self.conversions(g, gm + "::value_type", gc + "::value_type", path + "." + g.name + "[]")
         for d in lv.data:
             self.conv.append('    vro::probe_conv<decltype(std::declval<%s>().%s()), decltype(std::declval<%s>().%s())>("%s.%s");' % (
